@@ -4,8 +4,8 @@ the extraction of that function is undecided: every ordered pair from a 40-value
 spelled differently, strings, dates, durations, lists incl. nested ones, contexts with the key sets {}, {a}, {b}, {a, b} and nested
 ones) under `=`, `!=` and `list contains`, against a reference written out from DMN 1.3 section 10.3.2.15 / Table 53: values of
 different kinds do not compare (null), null equals only null, numbers by value, lists item by item in order (same length), contexts
-entry by entry (same key set), `!=` is the three-valued negation of `=`. Pairs in which an item comparison inside a list or context
-is between different kinds are left out (what the enclosing comparison then answers is not stated by the property).
+entry by entry (same key set), `!=` is the three-valued negation of `=`. For pairs in which an item comparison inside a list or context
+is between different kinds, what the enclosing comparison answers is not stated by the property - except that it is not `true`.
 prints `eqdiff cases=N failures=M`; exit 0 / 2."""
 import os
 import sys
@@ -68,6 +68,9 @@ def main():
         for (ty, my) in al:
             e = eq(mx, my)
             if e == SKIP:
+                # items of different kinds meet inside: whatever the comparison answers, it is not "equal"
+                cases.append(('(%s) = (%s)' % (tx, ty), '!true'))
+                cases.append(('(%s) != (%s)' % (tx, ty), '!false'))
                 continue
             # a literal `null` operand: `x = null` is a test for null (true / false), same as the model
             cases.append(('(%s) = (%s)' % (tx, ty), txt(e)))
@@ -77,8 +80,31 @@ def main():
         for (ty, my) in al:
             rs = [eq(i, my) for i in ml[1]]
             if SKIP in rs or None in rs:
+                if True not in rs:
+                    cases.append(('list contains(%s, %s)' % (tl, ty), '!true'))
                 continue
             cases.append(('list contains(%s, %s)' % (tl, ty), txt(True in rs)))
+    # the list built-ins that compare items with the same equality: index of, distinct values, union
+    def render(m):
+        for (t, mm) in al:
+            if mm == m:
+                return t
+        return None
+    for (tl, ml) in lists:
+        for (ty, my) in al:
+            rs = [eq(i, my) for i in ml[1]]
+            if SKIP in rs or None in rs:
+                continue
+            cases.append(('index of(%s, %s)' % (tl, ty), '[' + ', '.join(str(k + 1) for k, r in enumerate(rs) if r) + ']'))
+    wide = [('[1, 1.0, 2, 1]', [N1, N1, N2, N1], '[1, 2]'), ('[[1], [1.0], [2]]', None, '[[1], [2]]'), ('[{a: 1}, {a: 1.0}, {a: 1, b: 2}]', None, '[{a: 1}, {a: 1, b: 2}]'),
+            ('["a", "b", "a", null, null]', None, '["a", "b", null]'), ('[[1, 2], [2, 1], [1, 2]]', None, '[[1, 2], [2, 1]]'), ('[[1], ["a"]]', None, '[[1], ["a"]]'), ('[[1, 2], [1, true]]', None, '[[1, 2], [1, true]]')]
+    for (t, _, e) in wide:
+        cases.append(('distinct values(%s)' % t, e))
+    cases.append(('union([1, 2], [2.0, 3])', '[1, 2, 3]'))
+    cases.append(('union([[1, 2]], [[1, "x"]])', '[[1, 2], [1, "x"]]'))
+    cases.append(('union([{a: 1}], [{a: 1, b: 2}], [{a: 1.0}])', '[{a: 1}, {a: 1, b: 2}]'))
+    cases.append(('index of([["a"], [1]], [1])', '[2]'))
+    cases.append(('list contains([[1, 2], [3, 4]], [1, true])', 'false'))
     with tempfile.NamedTemporaryFile('w', suffix='.txt', delete=False, dir='/var/tmp', encoding='utf-8') as fh:
         for (x, e) in cases:
             fh.write('%s ==> %s\n' % (x, e))
